@@ -25,6 +25,8 @@ class Hooks(object):
 
 
 class Run(object):
+    MINW = 0             # min_threads of the notification pool (set around the explorations that want resident workers)
+
     def __init__(self, sv, kinds, nworkers, dks=None, late=False):
         """kinds: list of request kinds [{jr, notif, valid}] one per handler (1-based ids); dks: per handler "default" or
         "custom" (the dispatch function handed to _marshaled_dispatch)."""
@@ -88,7 +90,7 @@ class Run(object):
             self.d.register_function(self.make_fn(h), "ok_%d" % h)
         self.pool = None
         if nworkers:
-            self.pool = self.tp.ThreadPool(nworkers, 0, logname="N")
+            self.pool = self.tp.ThreadPool(nworkers, min(Run.MINW, nworkers), logname="N")
             if not late:
                 self.pool.start()
             self.d.set_notification_pool(self.pool)
@@ -371,6 +373,12 @@ if __name__ == "__main__":
     late_traces = []
     try:
         always = [("2", [a, b], nw) for a in N for b in N + Cc[:1] for nw in (1, 2)]
+        # resident workers (min_threads = 1): an idle time-out does not retire them - nothing may run a second time
+        Run.MINW = 1
+        for (sv, kinds, nw) in [("2", [N[0], N[1 % len(N)]], 1), ("2", [N[-1], Cc[0]], 1)][part % 2::2][:1]:
+            traces += explore(sv, kinds, nw, bound, maxruns, rnd, policy="low")
+            traces += explore(sv, kinds, nw, bound, maxruns, rnd, policy="high", dks=["custom", "custom"])
+        Run.MINW = 0
         for (sv, kinds, nw) in always[part::nparts]:
             traces += explore(sv, kinds, nw, bound, maxruns, rnd, policy="high", dks=["custom", "custom"])
             traces += explore(sv, kinds, nw, bound, maxruns, rnd, policy="low")
